@@ -70,6 +70,15 @@ func (g *c01Gen) valueRecipe() mj.Recipe {
 		if g.plainOnly {
 			return mj.RStr(genSpecialString(g.t, "sval"))
 		}
+		if g.n(0, 1, "rendChunked") == 0 {
+			// a Renderer that hands its text over in pieces, which may end inside a character, with or without markup
+			// of its own (written to Runtime.Writer) after each piece
+			r := mj.Recipe{T: "rend-chunks", I: -1, B: g.n(0, 1, "rendRaw") == 0}
+			for k := g.n(1, 3, "rendPieces"); k > 0; k-- {
+				r.Ss = append(r.Ss, genSpecialString(g.t, "rendPiece"))
+			}
+			return r
+		}
 		return mj.Recipe{T: "renderer-write", S: genSpecialString(g.t, "rend")}
 	case 14:
 		return mj.Recipe{T: "level", I: int64(g.n(0, 9, "level"))}
@@ -149,7 +158,7 @@ func (g *c01Gen) renderSite(scopeNames []string) *mj.Node {
 	if !isString && (stage == "upper" || stage == "html" || stage == "upper|raw" || stage == "lower|safeHtml") {
 		stage = ""
 	}
-	if r.T == "renderer-write" {
+	if r.T == "renderer-write" || r.T == "rend-chunks" {
 		stage = "" // rendered by its own method; not a value a pipeline can transform
 	}
 	g.sites = append(g.sites, src+":"+r.T+":"+stage)
@@ -179,7 +188,14 @@ func (g *c01Gen) leaf(scopeNames []string) []*mj.Node {
 		if g.n(0, 1, "lit") == 0 {
 			out = append(out, g.literalText())
 		}
-		switch g.n(0, 7, "sitekind") {
+		switch g.n(0, 8, "sitekind") {
+		case 8: // Go code that writes through the Runtime it is handed: rendered values too, piece by piece
+			call := mj.Call("rtWrite")
+			for k := g.n(1, 2, "rtWriteArgs"); k > 0; k-- {
+				call.Args = append(call.Args, mj.Str(genSpecialString(g.t, "rtw")))
+			}
+			g.sites = append(g.sites, "func:rtWrite:")
+			out = append(out, mj.Print(call))
 		case 0: // loop variable as the source
 			g.nvar++
 			list, v := fmt.Sprintf("list%d", g.nvar), fmt.Sprintf("lv%d", g.nvar)
@@ -361,6 +377,9 @@ func judgeC01(c c01Case) (v core.Verdict) {
 	special := false
 	for _, s := range c.Sites {
 		v.Label("site:" + s)
+		if s == "func:rtWrite:" {
+			special = true
+		}
 	}
 	for _, k := range c.Path {
 		v.Label("nest:" + k)
@@ -378,7 +397,7 @@ func judgeC01(c c01Case) (v core.Verdict) {
 		v.Label("after-an-execution-into-a-broken-destination")
 	}
 	for _, r := range c.Prog.Vars {
-		if strings.ContainsAny(r.S, "<>&'\"") || r.T == "level" || r.T == "code" || r.T == "renderer-write" || r.T == "nil*user" || r.T == "nilfunc" || r.T == "strholder" {
+		if strings.ContainsAny(r.S, "<>&'\"") || r.T == "level" || r.T == "code" || r.T == "renderer-write" || r.T == "rend-chunks" || r.T == "nil*user" || r.T == "nilfunc" || r.T == "strholder" {
 			special = true
 		}
 		if r.T == "longstring" || r.T == "straddle" {
@@ -422,7 +441,7 @@ func clipLong(s string) string {
 
 func TestC01(t *testing.T) {
 	core.Run(t, "C01",
-		"random nesting path (depth 0-5 of if/else/range/block/yield-with-content/default content/include/try/catch/exec, optionally under an extends layout) with 1-3 render sites per level; values (strings rich in < > & ' \" NUL multi-byte and pre-escaped entities, 4096-boundary long strings, ints, floats, bools, []byte, Stringer, error, slices, pointers, nil pointers and nil funcs (printed as <nil>), strings ending in the beginning of a multi-byte character, characters whose bytes straddle a 4096-byte piece boundary (U+2028 under safeJs), fmt.Stringer / error slots holding values that are Renderers too, a Renderer that writes through Runtime.Write) from literal / Execute variable / global / context sources; pipelines none/upper/html/raw/unsafe/safeHtml/safeJs/custom SafeWriter/prefix raw/chains; escaper default/nil/custom (byte-wise, non-idempotent); 1 case in 20 is a dump() / dump(n) / dump(name) action checked metamorphically against a Set without escaper; one extends case in three with the layout sitting in a Cache shared with a Set of another escaper that loaded it first; one case in four after an Execute of the same template into a destination that fails after 1-120 bytes; oracle = MiniJet reference interpreter, exact bytes; non-trivial = a value with a special byte and nesting depth >= 1",
+		"random nesting path (depth 0-5 of if/else/range/block/yield-with-content/default content/include/try/catch/exec, optionally under an extends layout) with 1-3 render sites per level; values (strings rich in < > & ' \" NUL multi-byte and pre-escaped entities, 4096-boundary long strings, ints, floats, bools, []byte, Stringer, error, slices, pointers, nil pointers and nil funcs (printed as <nil>), strings ending in the beginning of a multi-byte character, characters whose bytes straddle a 4096-byte piece boundary (U+2028 under safeJs), fmt.Stringer / error slots holding values that are Renderers too, a Renderer that writes through Runtime.Write) from literal / Execute variable / global / context sources; pipelines none/upper/html/raw/unsafe/safeHtml/safeJs/custom SafeWriter/prefix raw/chains; escaper default/nil/custom (byte-wise, non-idempotent); 1 case in 20 is a dump() / dump(n) / dump(name) action checked metamorphically against a Set without escaper; one extends case in three with the layout sitting in a Cache shared with a Set of another escaper that loaded it first; one case in four after an Execute of the same template into a destination that fails after 1-120 bytes; also: values that render themselves in pieces (each through Runtime.Write, pieces may end inside a character, optionally with markup of their own written to Runtime.Writer after every piece) and a Go function that writes through the Runtime it is handed; oracle = MiniJet reference interpreter, exact bytes; non-trivial = a value with a special byte and nesting depth >= 1",
 		genC01, judgeC01)
 }
 
